@@ -51,7 +51,9 @@ HOSTILE_TAGS = ["os.system", "os.popen", "subprocess.Popen", "subprocess.call", 
                 # subclasses of Pyro's own classes that exist in this process (the application's, and the Pyro4 compatibility layer's)
                 "checks.c04_subs.AuditedProxy", "checks.c04_subs.TaggedURI", "checks.c04_subs.LocalDaemon", "checks.c04_subs.AuditedProxy",
                 "Pyro5.compatibility.Pyro4.Proxy", "Pyro5.compatibility.Pyro4.URI", "Pyro5.compatibility.Pyro4.Daemon", "Pyro4.core.Proxy", "Pyro4.Proxy",
-                "Pyro4.core.URI", "Pyro5.nameserver.NameServerDaemon", "Pyro5.client.Proxy2", "c04_subs.AuditedProxy"]
+                "Pyro4.core.URI", "Pyro5.nameserver.NameServerDaemon", "Pyro5.client.Proxy2", "c04_subs.AuditedProxy",
+                # the tags the serpent library itself writes for values it has no literal for (Pyro accepts only serpent's float dict)
+                "complex", "collections.OrderedDict", "collections.OrderedDict", "collections.deque", "collections.defaultdict", "array.array", "bytes", "bytearray", "set", "frozenset", "tuple"]
 NONSTR_TAGS = [123, None, True, 1.5, ["list"], {"d": 1}]
 BYTES_TAGS = [b"os.system", b"Pyro5.core.URI", b"builtins.eval", b"\xff\xfe", b"a__b", b"ValueError"]
 
@@ -189,6 +191,13 @@ class Gen:
             d["attributes"][name] = nested if r.random() < 0.7 else [nested]
         if r.random() < 0.2:
             d[r.choice(["extra", "_pyroDaemon", "__init__", "object"])] = self.value(depth, inner_rec)
+        if r.random() < 0.15 or (tag in ("collections.OrderedDict", "complex", "collections.deque") and r.random() < 0.8):
+            # the members serpent's own class dicts have (OrderedDict/deque: items, complex: real/imag, bytes: data/encoding)
+            d["items"] = pick([C([]), C([["k", 1]]), lambda: [["k", self.value(depth, inner_rec)]], lambda: [[1, 2], ["x", self.value(depth, inner_rec)]], C("notalist"), C([[["unhashable"], 1]])])
+            if r.random() < 0.5:
+                d["real"], d["imag"] = r.choice([1.0, "1", None, [1]]), r.choice([2.0, 0, "x"])
+            if r.random() < 0.3:
+                d["data"], d["encoding"] = "aGVsbG8=", "base64"
         return d
 
 
